@@ -11,6 +11,12 @@ sys.path.insert(0, os.path.join(lib.ROOT, "translators"))
 
 ROOM_PROPS = {"C01", "C02", "C07", "C08", "C10", "C12"}
 ROOM_MODULES = ["DiscretModel.Lemmas.RoomKernelEq"]
+# T9: the last-writer-wins decision of Node::filter_existing (translators/t9_lww.py -> Gen/Lww.lean, Lemmas/LwwEq.lean)
+LWW_PROPS = {"C02", "C03", "C11", "C12"}
+LWW_MODULES = ["DiscretModel.Lemmas.LwwEq"]
+# T8: validate_node / validate_node_deletions / validate_edge_deletions (translators/t8_ingest_kernel.py -> Gen/IngestKernel.lean)
+INGEST_PROPS = {"C02", "C12"}
+INGEST_MODULES = ["DiscretModel.Lemmas.IngestKernelEq"]
 
 
 def repo_under_test():
@@ -25,7 +31,8 @@ def repo_under_test():
 
 
 def extra_modules(prop):
-    return list(ROOM_MODULES) if prop in ROOM_PROPS else []
+    return (list(ROOM_MODULES) if prop in ROOM_PROPS else []) + (list(LWW_MODULES) if prop in LWW_PROPS else []) \
+        + (list(INGEST_MODULES) if prop in INGEST_PROPS else [])
 
 
 def pre_build(prop):
@@ -43,12 +50,40 @@ def pre_build(prop):
             common.write_if_changed("RoomKernel.lean",
                                     "/-! translator T7 FAILED on %s: %s -/\nexample : False := by decide\n" % (
                                         repo, str(e).replace("-/", "- /")))
+    if prop in INGEST_PROPS:
+        import common, t8_ingest_kernel
+        repo = repo_under_test()
+        try:
+            t8_ingest_kernel.main(repo)
+        except Exception as e:
+            problems.append("T8 (authorisation_service.rs validators -> Gen/IngestKernel.lean): %s" % e)
+            common.write_if_changed("IngestKernel.lean",
+                                    "/-! translator T8 FAILED on %s: %s -/\nexample : False := by decide\n" % (
+                                        repo, str(e).replace("-/", "- /")))
+    if prop in LWW_PROPS:
+        import common, t9_lww
+        repo = repo_under_test()
+        try:
+            t9_lww.main(repo)
+        except Exception as e:
+            problems.append("T9 (node.rs filter_existing -> Gen/Lww.lean): %s" % e)
+            common.write_if_changed("Lww.lean",
+                                    "/-! translator T9 FAILED on %s: %s -/\nexample : False := by decide\n" % (
+                                        repo, str(e).replace("-/", "- /")))
     return problems
 
 
 def trusted(prop):
+    res = []
+    if prop in INGEST_PROPS:
+        res.append("translator T8 translators/t8_ingest_kernel.py: validate_node, validate_node_deletions, validate_edge_deletions of "
+                   "authorisation_service.rs read statement by statement; structures Model/IngestKernelTypes.lean (fields checked against the "
+                   "Rust structs on every run); Lemmas/IngestKernelEq.lean ties them to Ingest.validateNode / nodeDelAccepted / edgeDelAccepted")
+    if prop in LWW_PROPS:
+        res.append("translator T9 translators/t9_lww.py: the if-chain of Node::filter_existing read by rustmini.py; Lemmas/LwwEq.lean ties it to "
+                   "Ingest.filterOne and Sync.wanted (signatures compared as their byte-order rank)")
     if prop in ROOM_PROPS:
-        return ["translator T7 translators/t7_room_kernel.py + rustmini.py (reading of the Rust subset of room.rs) and the container view "
+        return res + ["translator T7 translators/t7_room_kernel.py + rustmini.py (reading of the Rust subset of room.rs) and the container view "
                 "lean/DiscretModel/Model/RustPrelude.lean; the 15 equalities of Lemmas/RoomKernelEq.lean tie the regenerated kernel "
                 "(Room::can, is_admin, is_user_valid_at, has_user, add_*; Authorisation::can, get_right_at, …; EntityRight::new) to Model/Room.lean"]
-    return []
+    return res
